@@ -501,7 +501,8 @@ func hagallGoroutines() (int, []string) {
 	var stuck []string
 	cnt := 0
 	for _, g := range strings.Split(string(buf[:n]), "\n\n") {
-		if strings.Contains(g, "aukilabs/hagall/websocket.(*handler)") || strings.Contains(g, "aukilabs/hagall/models.(*Session).StartDispatchFrames") {
+		inFrame := strings.Contains(g, "hagall-common/websocket.(*scheduler).HandleFrame")
+		if strings.Contains(g, "aukilabs/hagall/websocket.(*handler)") || strings.Contains(g, "aukilabs/hagall/models.(*Session).StartDispatchFrames") || inFrame {
 			cnt++
 			lines := strings.Split(g, "\n")
 			top := ""
@@ -510,6 +511,10 @@ func hagallGoroutines() (int, []string) {
 					top = strings.TrimSpace(ln)
 					break
 				}
+			}
+			if inFrame {
+				// (a library function: the name survives refactorings of the repository)
+				top += " @scheduler.HandleFrame"
 			}
 			stuck = append(stuck, lines[0]+" "+top)
 		}
